@@ -162,6 +162,9 @@ pub fn conforms(t: &JT, v: &V, path: &str) -> Result<(), String> {
         V::Grid(g) => {
             let m = members(t, "grid", &["meta", "cols", "rows"], path)?;
             let empty: Tags = vec![];
+            // the format version travels as meta "ver"; it may be left out only when it is the default
+            let ver_is_tag = g.meta.as_ref().map_or(false, |x| x.iter().any(|(k, _)| k == "ver"));
+            let mut ver_seen = false;
             match m.iter().find(|(k, _)| k == "meta") {
                 None => {
                     if g.meta.as_ref().map_or(false, |x| !x.is_empty()) {
@@ -172,12 +175,16 @@ pub fn conforms(t: &JT, v: &V, path: &str) -> Result<(), String> {
                     tags_conform(mt, g.meta.as_ref().unwrap_or(&empty), false, &["ver"], &format!("{path}.meta"))?;
                     if let JT::Obj(mm) = mt {
                         if let Some((_, ver)) = mm.iter().find(|(k, _)| k == "ver") {
-                            if !g.meta.as_ref().map_or(false, |x| x.iter().any(|(k, _)| k == "ver")) {
+                            ver_seen = true;
+                            if !ver_is_tag {
                                 is_str(ver, &g.ver, &format!("{path}.meta.ver"))?;
                             }
                         }
                     }
                 }
+            }
+            if g.ver != "3.0" && !ver_seen && !ver_is_tag {
+                return Err(format!("{path}: grid ver {:?} is not in meta.ver", g.ver));
             }
             match member(m, "cols", path)? {
                 JT::Arr(a) if a.len() == g.cols.len() => {
@@ -366,6 +373,7 @@ pub fn run(tier: Tier) -> i32 {
         pool.extend(u::pool_containers1());
         u::lists_over(&pool, 1, &mut |v| core.push(v));
         u::dicts_over(&pool, tier.pick(1, 2), &mut |v| core.push(v));
+        u::ver_variants(&mut |v| core.push(v));
     }
     let l = par_for(core.len(), |i, local| check_spellings(&core[i], Some(2), 3_000_000, local));
     run.absorb(l);
